@@ -318,12 +318,13 @@ def r72(ctx, repo):
     cls = repo.cls(FB, "BasinProxyFeature")
     ORIGIN, MAP = "self.feat_obj", "self.basinmap"
     top = ("__getitem__", "__array__")
-    pending = [(nm, None) for nm in top]
-    helper_calls = {}       # same-class helper -> [map-derived parameters]
+    pending = [(nm, None, nm) for nm in top]
     done = set()
     while pending:
-        mname, seed = pending.pop(0)
-        m = method(cls, mname)
+        # a helper is analysed once per call site (with the parameters that
+        # receive map-derived arguments there); `mname` labels the route
+        hname, seed, mname = pending.pop(0)
+        m = method(cls, hname)
         if m is None:
             raise AnalysisError(f"BasinProxyFeature.{mname} lost")
         # names derived from the map (for a helper: the parameters that
@@ -417,16 +418,15 @@ def r72(ctx, repo):
                          if i < len(params) and map_derived(a)}
                 bound |= {kw.arg for kw in c.keywords
                           if kw.arg in params and map_derived(kw.value)}
-                helper_calls.setdefault(c.func.attr, []).append(bound)
                 n_helper += 1
+                route = f"{mname}>{c.func.attr}"
+                if (route, tuple(sorted(bound))) not in done \
+                        and route.count(">") <= 3:
+                    done.add((route, tuple(sorted(bound))))
+                    pending.append((c.func.attr, bound, route))
         if n_access == 0 and not n_helper and mname in top:
             raise AnalysisError(f"BasinProxyFeature.{mname}: no access to "
                                 f"the origin found")
-        if not pending:
-            for hn, sets in sorted(helper_calls.items()):
-                if hn not in done:
-                    done.add(hn)
-                    pending.append((hn, set.intersection(*sets)))
         # enumerate loops: out[pos] = origin[value]
         for lp, (pname, vname, ittxt) in enum.items():
             fills = [n for n in walk(lp) if isinstance(n, ast.Assign)
